@@ -643,8 +643,11 @@ func (ss *SpecSet) ParseSpecText(origin, pkgPrefix string, lines []string) error
 			if pkgPrefix != "" && !strings.Contains(name, "/") && !strings.HasPrefix(name, pkgPrefix+".") {
 				name = pkgPrefix + "." + name
 			}
-			if _, dup := ss.Contracts[name]; dup {
-				return fmt.Errorf("%s: duplicate contract for %s", origin, name)
+			if old, dup := ss.Contracts[name]; dup {
+				// a further block for the same function (contracts are grouped by property): clauses accumulate
+				cur = old
+				curLoop = nil
+				continue
 			}
 			cur = &Contract{Func: name, Loops: map[string]*LoopSpec{}, Opts: map[string]string{}, Origin: origin}
 			ss.Contracts[name] = cur
@@ -702,9 +705,13 @@ func (ss *SpecSet) ParseSpecText(origin, pkgPrefix string, lines []string) error
 				return fmt.Errorf("%s: loop outside func", origin)
 			}
 			key := strings.TrimSuffix(rest, ":")
-			curLoop = &LoopSpec{Key: key}
-			cur.Loops[key] = curLoop
-			cur.LoopOrder = append(cur.LoopOrder, key)
+			if ex, ok := cur.Loops[key]; ok {
+				curLoop = ex
+			} else {
+				curLoop = &LoopSpec{Key: key}
+				cur.Loops[key] = curLoop
+				cur.LoopOrder = append(cur.LoopOrder, key)
+			}
 		case "loopinv":
 			if cur == nil {
 				return fmt.Errorf("%s: loopinv outside func", origin)
